@@ -28,6 +28,14 @@ def tLookup (ini : TIni) (sec key : String) : Option TVal :=
   | some v => some v
   | none => (ini.vars.find? (fun (p : String × TVal) => p.1 == norm key)).map (fun p => p.2)
 
+/-- what `${SECTION:KEY}` reads: an entry of that section itself (`parser.get(SECTION, KEY)` looks among the section's own options;
+    only `SECTION = Variables` names the variables) -/
+def tLookupX (ini : TIni) (sec key : String) : Option TVal :=
+  if sec == "Variables" then (ini.vars.find? (fun (p : String × TVal) => p.1 == norm key)).map (fun p => p.2)
+  else match ini.sections.find? (fun (p : String × List (String × TVal)) => p.1 == sec) with
+    | some (_, kvs) => (kvs.find? (fun (p : String × TVal) => p.1 == norm key)).map (fun p => p.2)
+    | none => none
+
 /-- the parts of one value, left to right; `lower` resolves a referenced value one level deeper -/
 def resolveParts (lower : String → TVal → Option String) (ini : TIni) (cur : String) : TVal → Option String
   | [] => some ""
@@ -39,7 +47,7 @@ def resolveParts (lower : String → TVal → Option String) (ini : TIni) (cur :
       | some a, some b => some (a ++ b)
       | _, _ => none
   | .xref sec name :: rest =>
-    match tLookup ini sec name with
+    match tLookupX ini sec name with
     | none => none
     | some v => match lower sec v, resolveParts lower ini cur rest with
       | some a, some b => some (a ++ b)
